@@ -25,7 +25,7 @@ ASSUME = [
 DP_PATHS = ["arc", "clone_last", "raw", "unique", "offset", "union1", "union2", "dyn", "hs", "slice", "thin"]
 
 
-def drop_panic_pass(ctx):
+def drop_panic_pass(ctx, prop="C05"):
     """the last handle is released while a payload destructor panics: through every handle kind the
     block must still go back to the allocator exactly once with its request layout (in the model the
     release emits the dealloc event unconditionally: `C01_destructor_with_release` / `decr_log`)."""
@@ -65,7 +65,7 @@ def drop_panic_pass(ctx):
     if bad:
         body = ["last handle released while a payload destructor panics (caught by catch_unwind); the tracking allocator's view:", ""]
         for (ln, o, why) in bad[:6]:
-            body += ["case : " + ln, "  impl : " + o, "  PROPERTY C05 FAILS: " + "; ".join(why), ""]
+            body += ["case : " + ln, "  impl : " + o, "  PROPERTY %s FAILS: " % prop + "; ".join(why), ""]
         ctx.violation("ops", "\n".join(body), True)
 
 
